@@ -217,4 +217,38 @@ def r19_4(ctx):
            f"the text route and the DOM route use one alphabet ({ {k: [''.join(sorted(chr(x) for x in a)) for a in v] for k, v in per_route.items()} })")
 
 
-RULES = [("R19.1", r19_1), ("R19.2", r19_2), ("R19.3", r19_3), ("R19.4", r19_4)]
+def r19_5(ctx):
+    """the DOM-route serializer keeps integers exact: every integer cast in its serialize_<int> methods is value
+    preserving (the source range lies inside the target range); range reductions go through try_from, whose failure is
+    the documented out-of-range error"""
+    from ..intervals import ty_range
+    prog = ctx.prog()
+    n = 0
+    for f in prog.fns.values():
+        if f.crate != "sonic_rs" or not (f.self_adt or "").endswith("value::ser::Serializer") or not re.match(r"^serialize_[iu](8|16|32|64|128)$", f.name):
+            continue
+        n += 1
+        bad = []
+        for b, i, st in f.assigns():
+            rv = st["rv"]
+            if rv["k"] == "cast" and rv.get("ck") == "IntToInt":
+                src_l = op_local(rv["op"])
+                sty = f.locals[src_l]["ty"] if src_l is not None else rv["op"].get("ty")
+                a, c = ty_range(sty or ""), ty_range(rv["ty"])
+                if a and c and not (c[0] <= a[0] and a[1] <= c[1]):
+                    bad.append((sty, rv["ty"], st.get("ln")))
+        ctx.ob("R19.5", f"exact-integers:{f.name}", not bad, f.loc(bad[0][2] if bad else None),
+               "integer casts are widening only" if not bad else
+               f"`as` cast {bad[0][0]} -> {bad[0][1]} is not value preserving: values outside the target range wrap instead of taking the out-of-range error the text route's counterpart is")
+    ctx.floor("R19.5", "integer methods of the DOM-route serializer", n, 10)
+    # Object equality never compares member sequences positionally
+    fs = [g for g in prog.fns.values() if g.crate == "sonic_rs" and g.name == "eq" and (g.d.get("impl") or {}).get("trait_ref") == "<value::object::Object as core::cmp::PartialEq>"]
+    if fs:
+        f = fs[0]
+        pos = [t for g in prog.with_closures(f) for b, t in g.calls() if callee_is(t, "eq", "ne") and "(value::node::Value, value::node::Value)" in " ".join((t.get("rgargs") or []) + (t.get("gargs") or []) + (t.get("argtys") or []))]
+        ctx.ob("R19.1", "Object::eq:no-positional-comparison", not pos, f.loc(pos[0]["ln"] if pos else None),
+               "members are never compared position by position" if not pos else
+               "the pair slices of the two operands are compared position by position: two parsed objects with the same members in a different order compare unequal")
+
+
+RULES = [("R19.1", r19_1), ("R19.2", r19_2), ("R19.3", r19_3), ("R19.4", r19_4), ("R19.5", r19_5)]
